@@ -20,6 +20,12 @@ package lnwire
 //     for slices and maps; covers ExtraData / CustomRecords / unknown
 //     records).
 //
+//   - wellformed_roundtrip (c10wf_test.go): harness-built well-formed values
+//     with one variable-length field at a boundary length; keys
+//     "<target>|own-encoding-rejected|<class>", "...|reencode-differs|...",
+//     "...|value-differs|...", "...|encode-refused-within-limits|...",
+//     "...|encoded-over-65535|...".
+//
 //   - ext_accept_implies_canonical: the TLV extension E of a valid encoding
 //     F||E is mutated in isolation; if ReadMessage accepts F||E' then an
 //     independent BOLT-1 walker (strictly increasing types, minimal BigSize
@@ -630,7 +636,7 @@ func verifC10AddrsInput(r *verifRng, tg verifC10Target, b0 []byte) []byte {
 			list = append(list, r.Bytes(35)...)
 			list = append(list, port()...)
 		case 4, 5:
-			hl := []int{0, 1, 10, 63, 64, 100, 254, 255}[r.Intn(8)]
+			hl := []int{0, 1, 2, 10, 63, 64, 127, 128, 251, 252, 253, 254, 255}[r.Intn(13)]
 			host := make([]byte, hl)
 			const ok = "abcdefghijklmnopqrstuvwxyzABCDEFGHIJKLMNOPQRSTUVWXYZ0123456789-."
 			for j := range host {
@@ -1501,6 +1507,19 @@ func (h *verifC10H) runCase(r *verifRng, tg verifC10Target, tgs []verifC10Target
 			b = append(append([]byte{}, tg.header()...), body...)
 		}
 		h.checkBytes(tg, "raw", b, true)
+	}
+	// Well-formed boundary values (c10wf_test.go): every variable-length
+	// field of the target at its boundary lengths. Runs last so that the
+	// PRNG stream of the parts above is unchanged.
+	wr := r.Fork("wf")
+	var table []string
+	for _, wf := range verifC10WFValues(wr, tg, vc) {
+		out := h.checkWellformed(tg, wf)
+		table = append(table, wf.Class+"="+out)
+	}
+	if h.i < len(tgs) && len(table) > 0 {
+		// first visit of the target: record what was generated
+		vc.Note("wf:"+tg.Name, strings.Join(table, " "))
 	}
 }
 
